@@ -1357,6 +1357,34 @@ impl Scenario for C07 {
 }
 
 impl C07 {
+    /// A reduced pass for `cargo +nightly miri run -- miri-smoke`: every PDU
+    /// kind x version through the writer/reader tasks, the item round trip
+    /// and the accessor audit (this is where the `repr(C, packed)` structs
+    /// are viewed as byte slices), without the fault enumeration.
+    pub fn smoke(&self) -> Result<u64, Violation> {
+        let mut n = 0;
+        for idx in 0..33u64 {
+            let ctx = Arc::new(SimCtx::new(Tape::generate(idx), false, 50_000_000));
+            let p = { let mut t = ctx.tape.lock().unwrap(); Self::sweep_pdu(idx, &mut t) };
+            let mut counters = Counters::default();
+            self.roundtrip(&ctx, &[p.clone()], &mut counters)?;
+            if p.is_payload() {
+                self.item_roundtrip(&ctx, &p)?;
+            }
+            accessor_audit(&p)?;
+            let enc = p.encode();
+            for k in [0usize, 3, 8, enc.len() - 1] {
+                for (ty, entry) in readers_for(&p) {
+                    let case = ReadCase { ty, entry, stream: &enc[..k.min(enc.len())], eof: true, corrupted: false };
+                    check_read(&ctx, &case, Frag { mode: 1, short_reads: false, spurious: 0 }, "smoke")?;
+                    n += 1;
+                }
+            }
+            n += 3;
+        }
+        Ok(n)
+    }
+
     fn sweep_pdu(idx: u64, t: &mut Tape) -> WirePdu {
         let v = (idx % 3) as u8;
         match idx / 3 {
